@@ -382,6 +382,19 @@ func (fr *Frame) evalModifies(cl *Clause, ctx *evalCtx) (locs []*Loc, err error)
 			}
 			_ = fv
 			locs = append(locs, cur)
+		case e.Kind == "ident" && e.Name == "closedChans":
+			// the ghost "has been closed" flag of every channel
+			if _, ok := fr.vc.heapSort["CH$closed"]; !ok {
+				fr.vc.heapSort["CH$closed"] = arrSort(sBool)
+			}
+			locs = append(locs, &Loc{kind: locField, ref: "*", root: "CH$closed", typ: types.Typ[types.Bool]})
+		case e.Kind == "call" && e.Args[0].Kind == "ident" && e.Args[0].Name == "allElems":
+			// allElems(T): the elements of every array of element type T
+			t := fr.eng.parseType(e.Args[1].String())
+			if t == nil {
+				efail("allElems(%s): unknown type", e.Args[1])
+			}
+			locs = append(locs, &Loc{kind: locElem, ref: "*", idx: "*", root: fr.eng.elemRoot(t), typ: t})
 		case e.Kind == "ident":
 			if ts, ok := fr.eng.cf.GhostVars[e.Name]; ok {
 				locs = append(locs, &Loc{kind: locGlobal, root: "G$ghost$" + e.Name, typ: fr.eng.parseType(ts)})
